@@ -94,7 +94,7 @@ def parseObs (t : String) : Option Obs :=
 
 /-- judge one step: `p` before, `q` after, `shrunk` = the window has shrunk since the last move.
     Returns the new flag or the reason of the failure. -/
-def judgeStep (rev : Bool) (e : Ev) (p q : Obs) (shrunk : Bool) : Except String Bool := do
+def judgeStep (rev : Bool) (e : Ev) (p q : Obs) (shrunk : Bool) (win : Nat) : Except String (Bool × Nat) := do
   -- the cursor designates an existing result
   if q.idx != q.ic + q.lc then throw "idx-is-not-ic+lc"
   if q.n > 0 then
@@ -108,26 +108,31 @@ def judgeStep (rev : Bool) (e : Ev) (p q : Obs) (shrunk : Bool) : Except String 
     | .clear => q.n == 0
     | _ => q.n == p.n
   if !nOk then throw "wrong-list-size"
-  -- exact movement once the list has been drawn
-  if p.h ≥ 1 ∧ p.n > 0 ∧ p.idx < p.n then
-    match askedRows p.h e with
+  -- exact movement once the list has been drawn.  The window height is the JUDGE's own record (`win`: the height of the last
+  -- draw that painted a row — the rule the property's "window" stands for), not the height the implementation says it stored
+  if win ≥ 1 ∧ p.n > 0 ∧ p.idx < p.n then
+    match askedRows win e with
     | some k =>
       let want := clamp 0 ((p.n : Int) - 1) ((p.idx : Int) + (if rev then -k else k))
       if (q.idx : Int) != want then throw s!"moved-to-{q.idx}-expected-{want}"
     | none => pure ()
     match e with
     | .row r =>
-      if r < p.h then
-        let i := if rev then r else p.h - 1 - r
+      if r < win then
+        let i := if rev then r else win - 1 - r
         let want := min (p.ic + i) (p.n - 1)
         if q.idx != want then throw s!"click-selected-{q.idx}-expected-{want}"
     | _ => pure ()
   -- drawing changes neither the list nor the cursor; the pointer is on the row of the cursor
   let mut shrunk := shrunk
+  let mut win := win
   match e with
   | .draw sh =>
     if q.idx != p.idx ∨ q.ic != p.ic then throw "draw-moved-the-cursor"
-    if q.h < p.h then shrunk := true
+    -- a draw that paints at least one row shows the window as it is now
+    if min (p.ic + sh) p.n - p.ic > 0 then
+      if sh < win then shrunk := true
+      win := sh
     match q.screen with
     | none => throw "no-screen"
     | some sc =>
@@ -143,8 +148,8 @@ def judgeStep (rev : Bool) (e : Ev) (p q : Obs) (shrunk : Bool) : Except String 
   if e.isMove then shrunk := false
   -- inside the window unless the window has shrunk since the last move (the fixed code also brings the
   -- cursor row back on `append`; the property does not ask for that, so the verdict does not either)
-  if ¬ shrunk ∧ q.n > 0 ∧ ¬ (q.lc < max q.h 1) then throw "cursor-row-outside-window"
-  return shrunk
+  if ¬ shrunk ∧ q.n > 0 ∧ ¬ (q.lc < max win 1) then throw "cursor-row-outside-window"
+  return (shrunk, win)
 
 def judge (rev : Bool) (evs : List Ev) (impl : String) : String :=
   let toks := (impl.splitOn " ").filter (· ≠ "")
@@ -157,14 +162,14 @@ def judge (rev : Bool) (evs : List Ev) (impl : String) : String :=
     | [] => "bad:empty"
     | o0 :: rest =>
       if o0.n != 0 ∨ o0.idx != 0 ∨ o0.cur != none then "bad:initial-state" else
-      let rec go (i : Nat) (evs : List Ev) (p : Obs) (os : List Obs) (shrunk : Bool) : String :=
+      let rec go (i : Nat) (evs : List Ev) (p : Obs) (os : List Obs) (shrunk : Bool) (win : Nat) : String :=
         match evs, os with
         | e :: evs', q :: os' =>
-          match judgeStep rev e p q shrunk with
-          | .ok f => go (i + 1) evs' q os' f
+          match judgeStep rev e p q shrunk win with
+          | .ok f => go (i + 1) evs' q os' f.1 f.2
           | .error why => s!"bad:op{i}:{why}"
         | _, _ => "ok"
-      go 0 evs o0 rest false
+      go 0 evs o0 rest false 0
 
 /-- returns (model tokens, verdict on the implementation's answer) -/
 def handle (case impl : String) : Except String (String × String) :=
